@@ -48,8 +48,9 @@ def run_tree(tree, caller):
     scope = {'x': CALLER} if caller else None
     before = dict(scope) if scope else None
     o1 = frames.execute(tree, [], caller_scope=scope)
-    o2 = frames.execute(tree, [], caller_scope=scope, hook=False)
     log1 = [dict(p=e['p'], v=fix(e['v'])) for e in o1['log']]
+    # the very same spec objects evaluated a second time: nothing may have been carried over
+    o2 = frames.execute(tree, [], caller_scope=scope, hook=False, prebuilt=o1['prebuilt'])
     log2 = [dict(p=e['p'], v=fix(e['v'])) for e in o2['log']]
     why = None
     if scope is not None and (scope != before or list(scope) != list(before)):
@@ -78,6 +79,9 @@ def worker(states):
         o1, log, why = run_tree(tree, caller)
         out['n'] += 1
         out['nontrivial'] += len(run['log']) >= 1
+        # the model's own "refuse" entries (which definition a Ref(name) resolved to) are not directly
+        # observable: the definition that ran shows through the marks / readers inside it
+        run = dict(run, log=[e for e in run['log'] if e['what'] != 'refuse'])
         case = dict(tree=tree, caller=caller, predicted=[[e['p'], e['v']] for e in run['log']],
                     observed=[[e['p'], e['v']] for e in log], text=repr(o1['spec']))
         if not why:
@@ -99,7 +103,8 @@ def worker(states):
 
 def rand_tree(rng, depth, mode='AUTO'):
     leaves = [('sbind', 'x'), ('sbind', 'y'), ('abind', 'x'), ('abind', 'y'), ('read', 'x'), ('read', 'y'), ('read', 'x'),
-              ('fail', ''), ('gbind', 'g'), ('gread', 'g')]
+              ('fail', ''), ('gbind', 'g'), ('gread', 'g'), ('vbind', 'v'), ('vset', 'v'), ('vread', 'v'), ('vread', 'v'),
+              ('mark', '')]
     if depth == 0 or rng.random() < 0.25:
         k, a = rng.choice(leaves)
         return {'k': k, 'a': a, 'c': []}
@@ -186,9 +191,16 @@ def match_finding(f, case):
 
 def main(tier, seed):
     check = vlib.Check(PROP, tier, seed)
-    consts = {'quick': dict(MaxDepth=2, SecondDepth=0), 'thorough': dict(MaxDepth=2, SecondDepth=1)}[tier]
-    res, results = vlib.map_states('MC_C07', worker, constants=consts)
-    check.add_tlc(res, 'MC_C07 %s' % consts)
+    runs = {'quick': [dict(MaxDepth=2, SecondDepth=0, Family='"scope"'), dict(MaxDepth=2, SecondDepth=0, Family='"vars"'),
+                      dict(MaxDepth=2, SecondDepth=1, Family='"ref"')],
+            'thorough': [dict(MaxDepth=2, SecondDepth=1, Family='"scope"'), dict(MaxDepth=2, SecondDepth=1, Family='"vars"'),
+                         dict(MaxDepth=2, SecondDepth=1, Family='"ref"')]}[tier]
+    results = []
+    for consts in runs:
+        res, rs = vlib.map_states('MC_C07', worker, constants=consts)
+        check.add_tlc(res, 'MC_C07 %s' % consts)
+        results += rs
+    consts = runs
     for r in results:
         check.cov['evaluations'] += r['n']
         check.cov['distinct_nontrivial'] += r['nontrivial']
@@ -200,8 +212,8 @@ def main(tier, seed):
     vars_cases(check)
     check.extra['recorded_rows'] = record(check, {'quick': 3000, 'thorough': 30000}[tier], seed)
     check.extra['constants'] = consts
-    check.assumptions += ['Ref(name) scoping is exercised by the C03 check (GlomAuto evaluates Ref recursion); Vars lifetime by '
-                          'hand-written two-call cases; Regex named groups bind like S(..) in their own frame and are not enumerated',
+    check.assumptions += ['a Ref definition never contains a Ref use in this universe (recursion on nested data is exercised by '
+                          'C03); Regex named groups bind like S(..) in their own frame and are not enumerated',
                           'A.x binds the target it receives: the law predicts the binder, the mechanism model the exact target']
     return check.finish(rule='TLC enumerates trees of depth <= MaxDepth over 8 binary composites, Spec(scope=), Fill, Match and 6 leaves '
                         'by constructor choice, with / without x in the caller scope, keeping trees with at least one binder and one '
